@@ -60,16 +60,19 @@ Theorem history_refines_spec : forall sub tbl h, wf_tbl tbl = true ->
 Proof. exact history_refines_spec_l. Qed.
 Print Assumptions history_refines_spec.
 
-(* REFUTED for the two other kinds of member that can be declared with the type parameter
-   (recorded findings C19 member=method-param and member=ctor-promoted): a method parameter
-   declared `T $x` and a constructor-promoted `public T $v` of a generic class accept every value.
-   Full statement that fails:
-     forall A v, method_param_accepts (Some (DGen "T")) [("T", A)] v = of_type sub v A
-   (and the same for ctor_promoted_accepts).  The theorems above are the property restricted to
-   the complement: declared properties, through the three store paths. *)
-Theorem method_param_refuted : exists sub A v,
-  method_param_accepts (Some (DGen "T")) [("T", A)] v = true /\ of_type sub v A = false.
-Proof. exact method_param_refuted_l. Qed.
+(* the two other kinds of member that can be declared with the type parameter.
+   T-typed method parameter (after fixes dcfa9d9, 895602f): exact for every value except null *)
+Theorem method_param_exactly_A_partial : forall sub n A v, v <> VNull ->
+  method_param_accepts sub (Some (DGen n)) [(n, A)] v = of_type sub v A.
+Proof. exact method_param_exact_l. Qed.
+Print Assumptions method_param_exactly_A_partial.
+(* full statement (forall v, method_param_accepts ... v = of_type sub v A) REFUTED by null (the
+   parameter boundary lets null through for every declared type: C07 finding type:param:method:null;
+   here C19 member=method-param:n), and REFUTED altogether for a constructor-promoted `public T $v`
+   of a generic class, which accepts every value (C19 member=ctor-promoted) *)
+Theorem method_param_null_refuted : exists sub A,
+  method_param_accepts sub (Some (DGen "T")) [("T", A)] VNull = true /\ of_type sub VNull A = false.
+Proof. exact method_param_null_refuted_l. Qed.
 Theorem ctor_promoted_refuted : exists sub A v,
   ctor_promoted_accepts (Some (DGen "T")) [("T", A)] v = true /\ of_type sub v A = false.
 Proof. exact ctor_promoted_refuted_l. Qed.
